@@ -77,7 +77,7 @@ def run(pid, tier, seed, replay):
         except Exception:
             pass
     ck = Check(pid, tier, seed, level="proof")
-    n = 90 if tier == "quick" else 1800
+    n = 300 if tier == "quick" else 6000
     ck.proof_step(extra_targets=["Model/Repartition.vo"])
     ok, out, dt = vlib.cargo_build("h_physplan", bin="c10")
     ck.log("cargo build: ok=%s (%.0fs)" % (ok, dt))
